@@ -8,9 +8,12 @@
 //   obj quart <n> {<a> <e> <d> <m>}*n        at <x_i>*n      sum a_i t^4 + e_i t^2 + d_i t,  t = x_i - m_i
 //   opt <kind> <k|i|a> <tol|-> <maxeval> <extra>
 //        kind : gss <lo> <hi> | brent <lo> <hi> <out|in> | nback <slope> <test> | newton1 | simple
-//               | snewton | powell | simplex | cg | bfgs | meta <full|step>
-//   init <k> {<index> <value> <con>}*k       con : N | I <lo|*> <hi|*> <inclLo> <inclHi>
+//               | snewton | powell | simplex | cg | bfgs | meta <full|step> [<n>]   (n: number of progressive steps, default 2)
+//   init <k> {<index> <value> <con> [P <precision>]}*k       con : N | I <lo|*> <hi|*> <inclLo> <inclHi>   (precision: default 0)
 //   step | optimize
+//   setmax <n>                                setMaximumNumberOfEvaluations(n) on the optimiser that exists
+//   clone                                     the optimiser is replaced by its clone() (the step listener is attached again:
+//                                             copies do not keep listeners)
 //   hint <cond> <inside> <convex> <full> <minimiser_i>*   what the generator knows about the objective (ignored here)
 //   bracket <out|in> <a> <b> <nint> <index> <value> <con> <auto>
 //
@@ -232,7 +235,8 @@ struct Machine {
         for (size_t j = 0; j < n; ++j) (j < h ? g1 : g2).push_back(pname(j));
         desc->addOptimizer("simple", std::make_shared<SimpleMultiDimensions>(f0), g1, 0, type);
         if (!g2.empty()) desc->addOptimizer("bfgs", std::make_shared<BfgsMultiDimensions>(f1), g2, 1, type);
-        opt = std::make_shared<MetaOptimizer>(f0, std::move(desc), 2);
+        unsigned int nsteps = t.size() > i + 1 ? (unsigned int)toU(t.at(i + 1)) : 2;
+        opt = std::make_shared<MetaOptimizer>(f0, std::move(desc), nsteps);
       }
       else return "bad-op";
       opt->setVerbose(0); opt->setProfiler(nullptr); opt->setMessageHandler(nullptr);
@@ -263,11 +267,23 @@ struct Machine {
     if (!opt) return "bad-op";
     // after an exception the optimiser may be half built (step() does not check isInitialized_): it is left alone
     if (dead && (o == "init" || o == "step" || o == "optimize")) return "exc:dead";
+    if (o == "clone") {
+      std::shared_ptr<OptimizerInterface> c(opt->clone());
+      c->addOptimizationListener(rec);
+      opt = c;
+      return "ok";
+    }
+    if (o == "setmax") { opt->setMaximumNumberOfEvaluations((unsigned int)toU(t.at(i++))); return "ok"; }
     if (o == "init") {
       size_t k = toU(t.at(i++));
       std::string a = guarded([&]() -> std::string {
         ParameterList pl;
-        for (size_t j = 0; j < k; ++j) { size_t ix = toU(t.at(i++)); double v = hexToDouble(t.at(i++)); auto c = con(t, i); pl.addParameter(Parameter(pname(ix), v, c)); }
+        for (size_t j = 0; j < k; ++j) {
+          size_t ix = toU(t.at(i++)); double v = hexToDouble(t.at(i++)); auto c = con(t, i);
+          double prec = 0;
+          if (i < t.size() && t[i] == "P") { prec = hexToDouble(t.at(i + 1)); i += 2; }
+          pl.addParameter(Parameter(pname(ix), v, c, prec));
+        }
         opt->init(pl);
         return "-";
       });
